@@ -5,6 +5,8 @@ def _conc(c, wd, tier, seed):
     # statements queued behind a panicking one, from several client threads: every call returns, the pool keeps its workers
     import c14
     c14.conc_leg(c, wd, tier, seed, prop=PROP, n=2 if tier == "quick" else 12)
+    if not c.violations:
+        dbcheck.soak_leg(c, wd, tier, seed, PROP)   # long runs: counters, clock hand, anything that only breaks after tens of thousands of evictions
 def _pool(c, tier):
     import c14
     c14.model_check_pool(c, tier)
